@@ -626,6 +626,129 @@ fn slow_executor(ctx: &mut Ctx, pause: std::time::Duration) {
     }
 }
 
+// ---- the process environment and the clocks, seen through an LD_PRELOAD shim ----------------------------------------------
+
+/// Child process of the C12 driver, started with LD_PRELOAD = harness/shim (if the shim is not loaded it says so and the leg is
+/// inconclusive). It evaluates one ruleset (cacheable and non-cacheable suspending functions, repeated calls) three times:
+/// plainly; with both clocks moved ten years forward between two polls; and again plainly. It prints the rendered outcomes and
+/// invocation logs; the shim logs every environment variable that is asked for while an evaluation is running.
+pub fn env_probe() -> i32 {
+    use std::ffi::c_void;
+    extern "C" {
+        fn dlsym(handle: *mut c_void, symbol: *const std::ffi::c_char) -> *mut c_void;
+    }
+    let sym = |name: &'static [u8]| unsafe { dlsym(std::ptr::null_mut(), name.as_ptr() as *const std::ffi::c_char) };
+    let (advance, mark) = (sym(b"verif_shim_advance\0"), sym(b"verif_shim_mark\0"));
+    if advance.is_null() || mark.is_null() {
+        println!("ENVPROBE shim-not-loaded");
+        return 3;
+    }
+    let advance: extern "C" fn(i64) = unsafe { std::mem::transmute(advance) };
+    let mark: extern "C" fn(i32) = unsafe { std::mem::transmute(mark) };
+    crate::core::install_panic_hook();
+    let rules: Vec<(String, Expr)> = vec![
+        ("r0".to_string(), Expr::Vec(vec![Expr::func("s1", Expr::reff("a")), Expr::func("n1", Expr::value(2)), Expr::func("s1", Expr::reff("a")), Expr::func("s2", Expr::value(1))])),
+        ("r1".to_string(), Expr::add(Expr::func("s2", Expr::value(1)), Expr::value(1))),
+        ("r2".to_string(), Expr::Vec(vec![Expr::year(Expr::datetime(Expr::value("2020-05-05T05:05:05Z".to_string()))), Expr::int(Expr::value("42".to_string())), Expr::uppercase(Expr::value("straße".to_string()))])),
+        ("r3".to_string(), Expr::eq(Expr::func("s1", Expr::value(7)), Expr::func("s1", Expr::value(7)))),
+    ];
+    let input = Value::Map([("a".to_string(), Value::Int(1))].into_iter().collect());
+    let w = world(&rules, &[1, 1, 1, 0]);
+    let one = |warp: bool| -> String {
+        w.fx.log.take();
+        let kept = &w.kept;
+        let rs = &w.fx.ruleset;
+        let r = guard(|| {
+            let waker = crate::exec::noop_waker();
+            let mut cx = std::task::Context::from_waker(&waker);
+            let mut fut: BoxFut<'_, Result<Rendered, String>> = Box::pin(async { render(rs.evaluate_value(&input).await, kept) });
+            crate::exec::CURRENT_EVAL.with(|c| c.set(100));
+            mark(1);
+            let mut polls = 0;
+            let out = loop {
+                polls += 1;
+                if let std::task::Poll::Ready(r) = fut.as_mut().poll(&mut cx) {
+                    break r;
+                }
+                if warp && polls == 1 {
+                    advance(10 * 365 * 86_400);
+                }
+            };
+            mark(0);
+            out
+        });
+        let log = log_of(&w.fx.log.take(), 100);
+        format!("{r:?} | log {log:?}")
+    };
+    println!("ENVPROBE base {}", one(false));
+    println!("ENVPROBE warp {}", one(true));
+    println!("ENVPROBE again {}", one(false));
+    println!("ENVPROBE done");
+    0
+}
+
+/// Driver side: compile the shim, run the probe under it, compare, and re-run it with every environment variable the code asked for
+/// set to a few values.
+fn environment_and_clock_leg(f: &mut Finish) {
+    let harness = crate::core::verif_dir().join("harness");
+    let target = std::env::var("CARGO_TARGET_DIR").map(std::path::PathBuf::from).unwrap_or_else(|_| harness.join("target"));
+    let dir = target.join("shim");
+    std::fs::create_dir_all(&dir).ok();
+    let so = dir.join("libverifshim.so");
+    let built = std::process::Command::new("cc").args(["-shared", "-fPIC", "-O1", "-o"]).arg(&so).arg(harness.join("shim/shim.c")).arg("-ldl").output();
+    if !matches!(&built, Ok(o) if o.status.success()) {
+        f.floors.push(floor("the LD_PRELOAD shim for the environment / clock leg does not build (cc missing?)".to_string(), false));
+        return;
+    }
+    let Ok(exe) = std::env::current_exe() else { return };
+    let log = dir.join(format!("getenv-{}.log", std::process::id()));
+    let run = |extra: Option<(&str, &str)>, log: Option<&std::path::Path>| -> Option<Vec<String>> {
+        let mut c = std::process::Command::new(&exe);
+        c.arg("envprobe").env("LD_PRELOAD", &so);
+        if let Some(l) = log {
+            let _ = std::fs::remove_file(l);
+            c.env("VERIF_SHIM_LOG", l);
+        }
+        if let Some((k, v)) = extra {
+            c.env(k, v);
+        }
+        let o = c.output().ok()?;
+        let out = String::from_utf8_lossy(&o.stdout).to_string();
+        if !out.contains("ENVPROBE done") {
+            return None;
+        }
+        Some(out.lines().filter_map(|l| l.strip_prefix("ENVPROBE ")).map(|s| s.to_string()).collect())
+    };
+    let Some(lines) = run(None, Some(&log)) else {
+        f.floors.push(floor("the environment / clock probe did not complete under the shim".to_string(), false));
+        return;
+    };
+    let get = |ls: &[String], k: &str| ls.iter().find_map(|l| l.strip_prefix(k).map(|s| s.trim().to_string())).unwrap_or_default();
+    let (base, warp, again) = (get(&lines, "base"), get(&lines, "warp"), get(&lines, "again"));
+    let mut asked: Vec<String> = std::fs::read_to_string(&log).unwrap_or_default().lines().map(|s| s.to_string()).collect();
+    let _ = std::fs::remove_file(&log);
+    asked.sort();
+    asked.dedup();
+    f.extras.insert("environment_and_clock_leg".into(), json!({"environment_variables_asked_for_during_evaluation": asked, "clocks_moved_forward_by": "10 years between the first and the second poll", "baseline": clip(base.clone(), 300)}));
+    if warp != base || again != base {
+        f.violations.push(crate::core::Violation { sig: "C12 outcome-depends-on-the-time-between-polls (clocks moved forward)".into(), what: "an evaluation during which the clocks were moved ten years forward between two polls gives a different outcome / invocation log".into(), case: json!({"plain": clip(base.clone(), 600), "clocks_moved": clip(warp, 600), "plain_again": clip(again, 600), "how_to_replay": "rvmon envprobe under LD_PRELOAD=harness/target/shim/libverifshim.so"}), count: 1 });
+    }
+    // every variable the code under test asked for: does its value change the outcome?
+    for name in asked.iter().filter(|n| !n.starts_with("VERIF_") && !n.starts_with("RVMON_") && !n.starts_with("LD_")) {
+        for value in ["1", "0", "true", "off", ""] {
+            match run(Some((name, value)), None) {
+                Some(ls) if get(&ls, "base") == base && get(&ls, "again") == base => {}
+                Some(ls) => {
+                    f.violations.push(crate::core::Violation { sig: "C12 outcome-depends-on-an-environment-variable".into(), what: format!("with {name}={value:?} in the environment the same evaluation gives a different outcome / invocation log"), case: json!({"variable": name, "value": value, "without": clip(base.clone(), 600), "with": clip(get(&ls, "base"), 600)}), count: 1 });
+                    break;
+                }
+                None => f.floors.push(floor(format!("the environment probe did not complete with {name}={value:?}"), false)),
+            }
+        }
+    }
+    f.floors.push(floor("environment / clock leg ran under the LD_PRELOAD shim".to_string(), true));
+}
+
 fn run(ctx: &mut Ctx) {
     if ctx.shard == 15 {
         // 3 s in the quick tier, 75 s in the thorough tier (a limit of a minute is the smallest a maintainer would plausibly pick)
@@ -662,6 +785,7 @@ fn finish(m: &Merged, tier: Tier) -> Finish {
     f.floors.push(floor(format!("evaluations dropped midway: {}", m.c("cancel:dropped-midway")), m.c("cancel:dropped-midway") >= tier.of(20_000, 80_000)));
     f.floors.push(floor(format!("large evaluations (>= 8000 nodes) that agreed under suspension / interleaving / drop: {} / {} / {}", m.c("large:suspended-agrees"), m.c("large:interleaved-agrees"), m.c("large:fresh-after-drop-agrees")), m.c("large:fresh-after-drop-agrees") >= 16));
     f.floors.push(floor(format!("wake-monitor checks: {}", m.c("wake-monitor:checked")), m.c("wake-monitor:checked") >= 1_000));
+    environment_and_clock_leg(&mut f);
     f.floors.push(floor(format!("slow-executor runs that agreed: {}", m.c("slow-executor:agrees")), m.c("slow-executor:agrees") >= 1));
     f.extras.insert("slow_executor".into(), json!(m.prefix_map("slow-executor:")));
     f.floors.push(floor(format!("cancellation indices seen: {}", m.prefix_count("cancel:after-polls")), m.prefix_count("cancel:after-polls") >= 5));
